@@ -192,31 +192,101 @@ def cfgOf (f : Facts) : ExpCfg :=
     isEmptyEq0 := f.isEmptyEq0.isYes, setZeroNone := f.setZeroNone.isYes, clearWins := f.clearWins.isYes,
     wireGet := match f.wireGet with | .ne0 => .ne0 | _ => .gt0 }
 
+/-! ### the write path that bypasses the index
+
+  Every claim path reads the expiration index, every filter reads the records.  They can only
+  agree if no request moves a record's expiry without going through `SaveFunction` (which
+  re-files the record in the index).  The one request with a second exit is the conditional
+  Increment: its failure branch. -/
+
+/-- a conditional Increment that answers "not incremented" leaves every record's expiry as it was -/
+def FailKeepsExpiry (kc : Cfg) : Prop :=
+  ∀ (ar : Arith) (now : Int) (i : Inst) (ty : NumTy) (k : Key) (by_ : Int) (cond : Option (RelOp × Int))
+    (ine ie : Option IncMeta) (v : Val) (m : Option Meta),
+    (Model.incCore kc ar now i ty k by_ cond ine ie).r = .inc v false m →
+    ∀ k', (AL.find k' (Model.incCore kc ar now i ty k by_ cond ine ie).i.recs).map (·.m.exp)
+        = (AL.find k' i.recs).map (·.m.exp)
+
+theorem fail_keeps_expiry (kc : Cfg) (h : kc.incFailClean = true) : FailKeepsExpiry kc := by
+  intro ar now i ty k by_ cond ine ie v m hr k'
+  unfold Model.incCore at hr ⊢
+  cases hs : Model.incStart ty (Model.createTreasure i k).1 with
+  | none => simp only [hs] at hr; cases hr
+  | some x =>
+    obtain ⟨t1, cur, u⟩ := x
+    simp only [hs] at hr ⊢
+    cases hc : condHolds ar ty cond cur with
+    | true => simp only [hc, if_true] at hr; injection hr with _ hb _; cases hb
+    | false =>
+      simp only [hc, h, if_true, Bool.false_eq_true, if_false]
+      split <;> rfl
+
+theorem not_fail_keeps_expiry (kc : Cfg) (h : kc.incFailClean = false) : ¬ FailKeepsExpiry kc := by
+  intro hh
+  have := hh Hv.C06.ar0 0 { recs := [("a", { c := { val := .int .i64 5 } })] } (.int .i64) "a" 1 (some (.eq, 77)) none
+    (some { exp := some 200 }) (.int .i64 5) (some { exp := 200 })
+    (by simp [Model.incCore, Model.createTreasure, AL.find, Model.incStart, Content.vis, condHolds, numCmp, numWrap, IntTy.wrap, IntTy.bits, IntTy.signed, numOf, numVal,
+          Model.applyIncMeta, metaResp, h, Val.scalar]) "a"
+  revert this
+  simp [Model.incCore, Model.createTreasure, AL.find, AL.has, AL.insert, Model.incStart, Content.vis, condHolds, numCmp, numWrap, IntTy.wrap, IntTy.bits, IntTy.signed, numOf,
+    numVal, Model.applyIncMeta, Model.park, h, Val.scalar]
+
+/-- **C30**, as far as it is proved: every expiry-aware site decides by the definition (`Holds`),
+    and no request moves an expiry past the index (`FailKeepsExpiry`).  That the handlers then
+    answer alike on every history is validated by the correspondence run. -/
+def Full (kc : Cfg) (c : ExpCfg) : Prop := Holds c ∧ FailKeepsExpiry kc
+
+def kcOf (f : Facts) : Cfg := Hv.C05.cfgOf f.kv
+
+def findings (f : Facts) : List String :=
+  (match f.wireGet with | .ne0 => [] | _ => ["C30-preepoch-expiry-invisible"]) ++
+  (if f.kv.incFailClean = .yes then [] else ["C30-failed-increment-leaves-trace"])
+
 def classify (f : Facts) : Verdict :=
-  if hasUnknown f then .undetermined "an expiry comparison site was not recognised"
+  if hasUnknown f || f.kv.incFailClean == .unknown then .undetermined "an expiry comparison site was not recognised"
   else if !(cfgOf f).good then .violated ["C30-expiry-site-deviates"]
-  else match f.wireGet with
-    | .ne0 => .holds
-    | _ => .violated ["C30-preepoch-expiry-invisible"]
+  else if findings f = [] then .holds
+  else .violated (findings f)
 
 /-- the fragment proved whenever the sites are good: all times at or after the epoch -/
 def Partial (c : ExpCfg) : Prop := c.good = true → HoldsNonneg c
 
-theorem classify_sound (f : Facts) : (classify f).Sound (Holds (cfgOf f)) (Partial (cfgOf f)) := by
+theorem kc_incFail (f : Facts) : (kcOf f).incFailClean = f.kv.incFailClean.isYes := by
+  simp [kcOf, Hv.C05.cfgOf, Hv.C06.cfgOf, Hv.C05.kvFacts]
+
+theorem classify_sound (f : Facts) : (classify f).Sound (Full (kcOf f) (cfgOf f)) (Partial (cfgOf f)) := by
   unfold classify
   split
   · trivial
   · split
     · rename_i h
-      exact ⟨not_holds_of_not_good _ (by simpa using h), fun hg => holds_nonneg _ hg⟩
+      exact ⟨fun hf => not_holds_of_not_good _ (by simpa using h) hf.1, fun hg => holds_nonneg _ hg⟩
     · rename_i h
       have hg : (cfgOf f).good = true := by
         cases hh : (cfgOf f).good with
         | true => rfl
         | false => simp [hh] at h
-      cases hw : f.wireGet with
-      | ne0 => exact holds_good _ hg (by simp [cfgOf, hw])
-      | gt0 => exact ⟨not_holds_gt0 _ (by simp [cfgOf, hw]), fun hg' => holds_nonneg _ hg'⟩
-      | unknown => exact ⟨not_holds_gt0 _ (by simp [cfgOf, hw]), fun hg' => holds_nonneg _ hg'⟩
+      split
+      · rename_i hfd
+        -- no finding: the wire shows every non-zero expiry and the failure branch is clean
+        have hw : f.wireGet = .ne0 := by
+          cases hw : f.wireGet <;> simp [findings, hw] at hfd
+          rfl
+        have hi : f.kv.incFailClean = .yes := by
+          by_cases hi : f.kv.incFailClean = .yes
+          · exact hi
+          · simp [findings, hi] at hfd
+        exact ⟨holds_good _ hg (by simp [cfgOf, hw]), fail_keeps_expiry _ (by rw [kc_incFail, hi]; rfl)⟩
+      · rename_i hfd
+        refine ⟨fun hf => ?_, fun hg' => holds_nonneg _ hg'⟩
+        cases hw : f.wireGet with
+        | gt0 => exact not_holds_gt0 _ (by simp [cfgOf, hw]) hf.1
+        | unknown => exact not_holds_gt0 _ (by simp [cfgOf, hw]) hf.1
+        | ne0 =>
+          have hi : f.kv.incFailClean ≠ .yes := by
+            intro hi; simp [findings, hw, hi] at hfd
+          refine not_fail_keeps_expiry _ ?_ hf.2
+          rw [kc_incFail]
+          cases hx : f.kv.incFailClean <;> simp_all [Tri.isYes]
 
 end Hv.C30
